@@ -1031,6 +1031,58 @@ func checkSplice(w *World, c *Check, pr *prover, rule string, f *ssa.Function) {
 			}
 		}
 	}
+	// an entry without an id names nobody: it is never compared with the ids seen so far (two different embedded
+	// objects that both lack an id would otherwise count as the same addressee — the second is deleted from the
+	// value's list, and the empty id is reported as a recipient)
+	if iriEq := w.Method("IRI", "Equals"); iriEq != nil {
+		nEq := 0
+		for _, call := range callsIn(f) {
+			if call.Common().StaticCallee() != iriEq || len(call.Common().Args) < 2 {
+				continue
+			}
+			nEq++
+			id := call.Common().Args[0]
+			guarded := false
+			for _, g := range rawGuards(call.Block()) {
+				bo, ok := g.cond.(*ssa.BinOp)
+				if !ok {
+					continue
+				}
+				// len(id) > 0 / len(id) != 0 / len(id) == 0 (false side) / id != "" / id == "" (false side)
+				var subj ssa.Value
+				var kc *ssa.Const
+				if k, isC := bo.Y.(*ssa.Const); isC {
+					subj, kc = bo.X, k
+				} else if k, isC := bo.X.(*ssa.Const); isC {
+					subj, kc = bo.Y, k
+				} else {
+					continue
+				}
+				if inner, isLen := lenOperand(subj); isLen {
+					subj = inner
+				}
+				if unwrap(subj) != unwrap(id) || kc.Value == nil {
+					continue
+				}
+				zero := kc.Value.String() == "0" || kc.Value.String() == `""`
+				if !zero {
+					continue
+				}
+				switch bo.Op {
+				case token.GTR, token.NEQ:
+					guarded = guarded || g.onTrue
+				case token.EQL, token.LEQ:
+					guarded = guarded || !g.onTrue
+				}
+			}
+			key := fmt.Sprintf("%s:id-less#%d", name, nEq)
+			if guarded {
+				c.ok(rule, key, w.InstrPos(call), "only non-empty ids are compared with the ids seen so far")
+			} else {
+				c.bad(rule, key, w.InstrPos(call), fmt.Sprintf("%s compares an entry's id with the ids seen so far without first excluding the empty id: two different embedded objects that lack an id count as one addressee — the second is deleted from the list (flattening and Recipients() lose it), and the empty id is returned as a recipient", name))
+			}
+		}
+	}
 	// descending order when deleting collected indices
 	usesIndexList := false
 	hasReverse := false
